@@ -1,7 +1,7 @@
 """C20 — connection metrics conserve: gauges return to zero and counters match the wire.
 See vlib/txncommon.py; this check reports the Met* clauses of prop/Txn."""
 import json
-from . import txncommon
+from . import common, txncommon, s1common
 
 
 def run(ctx):
@@ -9,6 +9,26 @@ def run(ctx):
         txncommon.run(ctx, 48, "plain,cancel,stall,b2,drop,close,gen,plain", par=4)
     else:
         txncommon.run(ctx, 240, "plain,cancel,stall,b2,drop,close,gen,plain", par=4, passes=3)
+    secs1(ctx)
+
+
+def secs1(ctx):
+    """the SECS-I transport: two no-W sends, an answered and an unanswered W send (T3; the equipment adds its S9F9), two inbound
+    messages (one of two blocks), then a drop and a relink -- counters against what the E4 reference peer counted, gauges at
+    both quiescent points; all four role / mode combinations per pass"""
+    allobs = s1common.record(ctx, "met", passes=2 if ctx.quick else 8)
+    lines, rejs, res = s1common.judge(ctx, allobs, ("e4met",))
+    groups = {}
+    for d, why in rejs:
+        if why == "HarnessFault":
+            continue
+        g = groups.setdefault("c20:secs1:%s" % why, dict(n=0, first=d))
+        g["n"] += 1
+    for sig, g in sorted(groups.items()):
+        ctx.violation("SECS-I metrics scenario rejected (%s), %d scenario(s): %s" % (sig, g["n"], common.short(g["first"], 600)),
+                      dict(binding="B2 E4 reference peer + OracleE4 Met* clauses", signature=sig, occurrences=g["n"], observation=g["first"]))
+    ctx.cov["secs1_metric_scenarios"] = len(lines)
+    ctx.cov["traces_validated_against_impl"] = ctx.cov.get("traces_validated_against_impl", 0) + len(lines)
 
 
 def selftest(ctx):
